@@ -5,6 +5,7 @@ programs parse and ground is decided with the real clingo / telingo on every out
 -/
 import Cnl2aspModel.Compiler.Value
 import Cnl2aspModel.Cnl.Safety
+import Cnl2aspModel.Asp.GramLemmas
 
 namespace Cnl2aspModel.Value
 
@@ -120,3 +121,36 @@ theorem C06_core_safe (σ : Sentence) (h : Sentence.safeB σ = true) : ∀ r ∈
   rules_safe σ (Sentence.safeB_sound σ h)
 
 end Cnl2aspModel.Core.Exec
+
+
+namespace Cnl2aspModel.Gram
+open PrintAtom PrintProg
+
+/-- statement syntax: every well-formed rule object (head atoms, conditions, choice bounds, body atoms, comparisons over
+arithmetic terms, aggregates, `&tel` formulas with any nesting; weak constraints) is printed by the model of the `__str__`
+methods as a statement of the solver's grammar — for all names, values, operand counts and nesting depths.  `wfRule` is
+decidable and evaluated by the driver on every real rule object; the printer model is compared with the real printer byte
+for byte on every run (harness/props/c06.py: printer_layer). -/
+theorem C06_rule_syntax (r : Rule) (h : wfRule r = true) : Stmt (toks (ruleP none r)) := stmt_of_wf r h
+
+/-- a whole encoding (constant directives, program parts, rules) prints to a program of the grammar -/
+theorem C06_program_syntax (e : Encoding) (h : (e.programs.all fun p => p.rules.all wfRule) = true) :
+    Prog (toks (encodingP none e)) := prog_of_encoding e h
+
+/-- non-vacuity: a choice rule with a head condition, a body with a negated atom, an aggregate comparison, an arithmetic
+comparison and a temporal formula is well-formed (the driver prints it as
+`1 <= {assigned_to(X,C): colour(C)} :- node(X), not node(Y), #count{Z: edge(X,Z)} > 1, X + 1 <= Y,not not &tel {< << on(X)}.`) -/
+example :
+    let node : Atom := { name := "node", attrs := [⟨"id", "X", []⟩] }
+    let r : Rule := {
+      head := [{ elem := .atom { name := "assigned_to", attrs := [⟨"id", "X", []⟩, ⟨"id", "C", []⟩] },
+                 cond := [.atom { name := "colour", attrs := [⟨"id", "C", []⟩] }] }],
+      body := [.atom node, .atom { node with negated := true, attrs := [⟨"id", "Y", []⟩] },
+               .op .plain ">" [.agg "count" [.val "Z"] [.atom { name := "edge", attrs := [⟨"a", "X", []⟩, ⟨"b", "Z", []⟩] }], .val "1"],
+               .op .plain "<=" [.op .plain "+" [.val "X", .val "1"], .val "Y"],
+               .tel false [.op .temporal "<" [.atom { name := "on", attrs := [⟨"id", "X", []⟩], isInitial := true }]]],
+      card := some ("1", "") }
+    wfRule r = true := by
+  decide
+
+end Cnl2aspModel.Gram
